@@ -171,7 +171,7 @@ CHECKS['C15'] = (
     'The assemblers are proved to satisfy the layout predicates for every description accepted by a structural well-formedness predicate (assemble_*_layout), giving closed …_carried_exact / '
     '…_assembled_exact forms; whole-file forms through C01 (get_section and get_section_by_name on any byte string carrying the description); chains that end early (next = 0, cnt beyond the chain) '
     'and chains that leave the file (ELFParseError) are theorems. The whole-file well-formedness examples are #guard-evaluated (Con.encodeRaw does not reduce in the kernel). '
-    'Correspondence-only: byte-level damage outside those two classes, has_indexes / definition get_version on auxiliary-truncated entries, name decoding.',
+    'Correspondence-only: byte-level damage outside those two classes, has_indexes / definition get_version on auxiliary-truncated entries, name decoding. The cache _has_indexes is a refinement theorem over the generic cache machine (Model/VerCache; has_indexes_history_independent, has_indexes_failed_walk_publishes_nothing: any bytes, any number of calls on one object); the driver answers a three-call history through the cache model and the harness compares it with three calls on one live section object — this exposed a genuine defect (the answer False was assigned before the walk: ELFParseError, then False), repaired by fix 41cb572 and recorded under C10 (has-indexes-cached-before-walk).',
     'DESIGN.md §6 C15')
 CHECKS['C17'] = (
     'Lean 4 kernel evaluation (decide +kernel over Nat-keyed tables, one theorem per regenerated table + a catch-all over the table index): every (name, value) the library '
